@@ -3,6 +3,7 @@ import HappyProofs.C19.MQAccount
 import HappyProofs.C19.MQAck
 import HappyProofs.C19.MQAckFinal
 import HappyProofs.C19.MQRedeliv
+import HappyProofs.C19.MQHyp
 import HappyProofs.C19.MQOrder
 import HappyProofs.C19.MQLimit
 import HappyProofs.C19.MQReach
@@ -62,6 +63,22 @@ theorem first_deliveries_in_publish_order (cfg : Cfg) (hl : cfg.legacy = false)
     (sched : List (Nat × Act)) (h : RedelivLegit cfg {} sched) :
     jOrder {} (MQ.run cfg {} sched) = none :=
   HappyModel.C19.first_deliveries_in_publish_order cfg hl sched h
+
+/-- the same with the hypothesis reduced to the engine fact "only events that exist are delivered": a
+    `message_redelivery` event reaches the queue only if `schedule_redelivery` handed one out that has not been
+    delivered yet (`TimerCausal`; it implies `RedelivLegit`, a condition on model states) -/
+theorem first_deliveries_in_publish_order_causal (cfg : Cfg) (hl : cfg.legacy = false)
+    (sched : List (Nat × Act)) (h : TimerCausal cfg {} [] sched) :
+    jOrder {} (MQ.run cfg {} sched) = none :=
+  HappyModel.C19.first_deliveries_in_publish_order_causal cfg hl sched h
+
+/-- deliveries without the quiescent-end hypothesis: on every schedule the judge's clauses about consumers, stamps
+    and receipt instants hold at every step; its only possible objection is the end-of-run one, raised exactly when a
+    delivery is still suspended or in the engine's heap at the cut -/
+theorem delivery_safe_on_every_schedule (cfg : Cfg) (hl : cfg.legacy = false) (sched : List (Nat × Act)) :
+    jReach cfg.lat {} (MQ.run cfg {} sched) =
+      if (MQ.exec cfg {} sched).tix = [] then none else some "mq/delivery/never-reached-consumer" :=
+  HappyModel.C19.delivery_safe_on_every_schedule cfg hl sched
 
 /-- the redelivery limit moves a message to the dead-letter queue, nothing else does, and a
     dead-lettered message is never delivered again -/
